@@ -113,6 +113,7 @@ def case_strategy(draw, tier="quick"):
             "chunks": draw(st.lists(st.sampled_from([0, 1, 1, 2, 3, 7]), min_size=1, max_size=6)),
             "reassign": draw(st.sampled_from([None, None, None, "triclinic-first", "vector-first"])),
             "early_close": draw(st.one_of(st.none(), st.none(), st.none(), st.integers(0, 1000))),
+            "refused": draw(st.one_of(st.none(), st.none(), st.integers(0, 1000))),
             "read_api": draw(st.sampled_from(["path", "path", "fileobj", "open_coordinate_file", "iterate"])),
             "prior": draw(st.one_of(st.none(), st.fixed_dictionaries({
                 "format": st.sampled_from([None, 1, 2, 4, 6]), "vel": st.booleans(), "n": st.integers(1, 40),
@@ -178,7 +179,16 @@ def write_with_library(case, path):
             for r in recs:
                 f.writeline(tuple(r))
         else:
-            for r in recs:
+            for k, r in enumerate(recs):
+                if case.get("refused") is not None and len(recs) > 1 and k == 1 + case["refused"] % (len(recs) - 1):
+                    # error-then-continue on one writer: a malformed record (five fields) is refused, the caller
+                    # catches that and goes on writing.  (Never before the first record: the unchanged writer sets
+                    # itself up from its first record and cannot be used after refusing it - no listed property
+                    # covers that.)
+                    try:
+                        f.writeline([1, "BAD", "X", 1, 0.5] if case["refused"] % 2 else [1, "BAD", "X", 1, 0.5, 0.5])
+                    except Exception:      # noqa: BLE001
+                        pass
                 f.writeline(list(r))
     finally:
         f.close()
